@@ -73,6 +73,24 @@ struct State {
     in_flight: HashMap<usize, VecDeque<Option<Vec<usize>>>>,
     /// Number of words of the closure stored behind the `TaskShared` header.
     closure_words: usize,
+    /// Fault injection: the k-th thread creation of the iteration is refused.
+    fail_spawn: Option<usize>,
+    spawn_attempts: usize,
+    spawn_failed: bool,
+    /// The channel created last and not yet bound to a thread (pool.rs creates
+    /// a thread's channel right before the thread).
+    last_chan: Option<::std::sync::Arc<::std::sync::atomic::AtomicUsize>>,
+}
+
+/// Identifier of a channel whose thread was never created.
+pub const DEAD_CHAN: usize = usize::MAX;
+
+fn chan_str(c: usize) -> String {
+    if c == DEAD_CHAN {
+        "d".to_string()
+    } else {
+        c.to_string()
+    }
 }
 
 impl State {
@@ -89,6 +107,10 @@ impl State {
         self.joins.clear();
         self.in_flight.clear();
         self.closure_words = 0;
+        self.fail_spawn = None;
+        self.spawn_attempts = 0;
+        self.spawn_failed = false;
+        self.last_chan = None;
     }
 }
 
@@ -120,6 +142,10 @@ impl State {
             joins: Vec::new(),
             in_flight: HashMap::new(),
             closure_words: 0,
+            fail_spawn: None,
+            spawn_attempts: 0,
+            spawn_failed: false,
+            last_chan: None,
         }
     }
 }
@@ -175,6 +201,17 @@ pub fn clear_all() {
 /// words of `TaskShared` (validated by `Receiver::recv`).
 pub fn set_closure_words(n: usize) {
     with(|s| s.closure_words = n);
+}
+
+/// Arms the fault "the k-th thread creation of this iteration is refused"
+/// (call after `reset`).
+pub fn set_fail_spawn(k: Option<usize>) {
+    with(|s| s.fail_spawn = k);
+}
+
+/// Was a thread creation refused since the last call?
+pub fn take_spawn_failed() -> bool {
+    with(|s| ::std::mem::replace(&mut s.spawn_failed, false))
 }
 
 /// Is the counter of the `b`-th task block of this iteration still alive?
@@ -258,27 +295,34 @@ pub mod sync {
     pub use shuttle::sync::{Mutex, MutexGuard};
 
     pub mod mpsc {
-        use super::super::{block_forever, log, tid_str, with};
+        use super::super::{block_forever, chan_str, log, tid_str, with};
         pub use ::std::sync::mpsc::{RecvError, SendError};
 
+        use ::std::sync::atomic::{AtomicUsize as StdAtomicUsize, Ordering as StdOrdering};
+        use ::std::sync::Arc;
+
+        /// The identifier of a channel is the number of the thread that owns
+        /// its receiving end; it is bound when that thread is created (pool.rs
+        /// creates the channel right before the thread).  A channel whose
+        /// thread creation was refused is `d` (dead).
         pub struct SyncSender<T> {
             inner: shuttle::sync::mpsc::SyncSender<T>,
-            c: usize,
+            id: Arc<StdAtomicUsize>,
         }
 
         pub struct Receiver<T> {
             inner: shuttle::sync::mpsc::Receiver<T>,
-            c: usize,
+            id: Arc<StdAtomicUsize>,
         }
 
         pub fn sync_channel<T>(bound: usize) -> (SyncSender<T>, Receiver<T>) {
             let (tx, rx) = shuttle::sync::mpsc::sync_channel::<T>(bound);
-            let c = with(|s| {
-                let c = s.next_chan;
+            let id = Arc::new(StdAtomicUsize::new(0));
+            with(|s| {
                 s.next_chan += 1;
-                c
+                s.last_chan = Some(Arc::clone(&id));
             });
-            (SyncSender { inner: tx, c }, Receiver { inner: rx, c })
+            (SyncSender { inner: tx, id: Arc::clone(&id) }, Receiver { inner: rx, id })
         }
 
         /// Header words of `TaskShared` that never change during a broadcast:
@@ -319,7 +363,7 @@ pub mod sync {
 
         impl<T> SyncSender<T> {
             pub fn send(&self, t: T) -> Result<(), SendError<T>> {
-                let c = self.c;
+                let c = self.id.load(StdOrdering::Relaxed);
                 let snap = task_ptr(&t).map(|p| {
                     let n = with(|s| s.closure_words);
                     snapshot(p, n)
@@ -336,15 +380,18 @@ pub mod sync {
                     with(|s| {
                         s.in_flight.entry(c).or_default().pop_back();
                     });
+                    // the receiving end is gone
+                    log(format!("Q.{}.e", chan_str(c)));
+                    return r;
                 }
-                log(format!("Q.{c}"));
+                log(format!("Q.{}", chan_str(c)));
                 r
             }
         }
 
         impl<T> Receiver<T> {
             pub fn recv(&self) -> Result<T, RecvError> {
-                let c = self.c;
+                let c = self.id.load(StdOrdering::Relaxed);
                 let r = self.inner.recv();
                 match &r {
                     Ok(t) => {
@@ -594,12 +641,34 @@ pub mod thread {
             F: FnOnce() -> T + Send + 'static,
             T: Send + 'static,
         {
+            // Fault injection: this creation is refused.  The closure (and with
+            // it the receiving end of the thread's channel) is dropped.
+            let refused = with(|s| {
+                s.spawn_attempts += 1;
+                if s.fail_spawn == Some(s.spawn_attempts) {
+                    s.spawn_failed = true;
+                    if let Some(id) = s.last_chan.take() {
+                        id.store(super::DEAD_CHAN, ::std::sync::atomic::Ordering::Relaxed);
+                    }
+                    Some(s.spawn_attempts)
+                } else {
+                    None
+                }
+            });
+            if let Some(a) = refused {
+                log(format!("F.{a}"));
+                drop(f);
+                return Err(::std::io::Error::new(::std::io::ErrorKind::Other, "thread creation refused (injected)"));
+            }
             let k = with(|s| {
                 let k = s.next_tid;
                 s.next_tid += 1;
                 while s.tokens.len() <= k {
                     s.tokens.push(false);
                     s.shuttle_threads.push(None);
+                }
+                if let Some(id) = s.last_chan.take() {
+                    id.store(k, ::std::sync::atomic::Ordering::Relaxed);
                 }
                 k
             });
